@@ -5,6 +5,7 @@ CONSTANTS
   CatStride = 1
   PairStride = 5
   SameStride = 1
+  AttrStride = 2
   ShapeFrom = "named dims"
 CONSTRAINT Export
 INVARIANT ImplRefinesReq
